@@ -539,10 +539,15 @@ def _eval(expr, variables, functions, thru=False):
             if rv.truthy(cond):
                 return _eval(args[1], variables, functions, thru) if len(args) >= 2 else None
             return _eval(args[2], variables, functions, thru) if len(args) >= 3 else None
+        bound_before = functions.get(name)
         values = [_eval(a, variables, functions, thru) for a in args]     # left to right, each exactly once
         func = functions.get(name)
+        if func is not bound_before:
+            # an argument re-bound the called name: whether the name is resolved before or after the arguments is not
+            # documented (and with an unbound name on one side, neither is whether the run fails)
+            raise _Unspec()
         if func is None:
-            raise RefUndefinedFunction(name)
+            raise RefUndefinedFunction(name)     # only after all arguments were evaluated: their effects come first
         if any(v is UNSPECIFIED for v in values):
             return UNSPECIFIED        # the call is not modelled (callers pass effect-free functions in such positions)
         return _known(func(values), thru)
@@ -647,3 +652,9 @@ def selftest():
     assert evaluate_effects(_b('>=', _b('/', call(num(1)), call(num(0))), call(num(2))), {}, funcs) == (UNSPECIFIED, True) and log == [1, 0, 2]
     del log[:]
     assert evaluate_effects(_b('&&', _b('%', call(num(1)), call(num(0))), call(num(2))), {}, funcs) == (UNSPECIFIED, False) and log == [1, 0]
+    del log[:]
+    try:
+        evaluate({'function': {'name': 'nope', 'args': [call(num(1)), call(num(2))]}}, {}, funcs)
+        raise AssertionError('undefined function not reported')
+    except RefUndefinedFunction:
+        assert log == [1, 2]
